@@ -60,6 +60,10 @@ type IndexedState struct {
 
 	cachedRules map[string]*Rule
 
+	// cacheMutex protects cachedRules, which is also touched by
+	// readers (that hold only the read lock).
+	cacheMutex sync.Mutex
+
 	addHook AddHookFn
 
 	remHook RemHookFn
@@ -265,8 +269,8 @@ func extractTermsAux(ctx *Context, x interface{}, terms StringSet, depth int) {
 
 func (s *IndexedState) Add(ctx *Context, id string, x Map) (string, error) {
 	Log(DEBUG, ctx, "IndexedState.Add", "state", s.Name, "factx", x, "id", id)
-	delete(s.cachedRules, id)
 	s.slock(ctx, false)
+	s.uncacheRule(id)
 	id, err := s.add(ctx, id, x)
 	// Persist what we hold in memory: the prepared fact, which has
 	// the expiration time that was computed from any 'ttl'.
@@ -440,7 +444,7 @@ func (s *IndexedState) Rem(ctx *Context, id string) (bool, error) {
 
 func (s *IndexedState) rem(ctx *Context, id string) (bool, error) {
 	Log(DEBUG, ctx, "IndexedState.rem", "name", s.Name, "id", id)
-	delete(s.cachedRules, id)
+	s.uncacheRule(id)
 
 	// Currently we don't return an error if the fact isn't found.
 	// ToDo: Reconsider.  For example, maybe have an additional
@@ -530,7 +534,9 @@ func (s *IndexedState) Clear(ctx *Context) error {
 	s.slock(ctx, false)
 	defer s.sunlock(ctx, false)
 
+	s.cacheMutex.Lock()
 	s.cachedRules = make(map[string]*Rule)
+	s.cacheMutex.Unlock()
 	if err := s.remHooks(ctx); err != nil {
 		return err
 	}
@@ -548,7 +554,9 @@ func (s *IndexedState) Delete(ctx *Context) error {
 	s.slock(ctx, false)
 	defer s.sunlock(ctx, false)
 
+	s.cacheMutex.Lock()
 	s.cachedRules = make(map[string]*Rule)
+	s.cacheMutex.Unlock()
 	if err := s.remHooks(ctx); err != nil {
 		return err
 	}
@@ -731,10 +739,20 @@ func (s *IndexedState) FindRules(ctx *Context, event Map) (map[string]Map, error
 	return s.doFindRules(ctx, event)
 }
 
+func (s *IndexedState) uncacheRule(id string) {
+	s.cacheMutex.Lock()
+	delete(s.cachedRules, id)
+	s.cacheMutex.Unlock()
+}
+
 func (s *IndexedState) doFindRules(ctx *Context, event Map) (map[string]Map, error) {
 	s.slock(ctx, true)
 	defer s.sunlock(ctx, true)
+	return s.findRules(ctx, event)
+}
 
+// findRules assumes a read lock.
+func (s *IndexedState) findRules(ctx *Context, event Map) (map[string]Map, error) {
 	acc := make(map[string]Map)
 	ss, err := s.RuleIndex.SearchPatternsMap(ctx, map[string]interface{}(event))
 	if err != nil {
@@ -788,10 +806,19 @@ func (s *IndexedState) FindCachedRules(ctx *Context, event Map) (map[string]*Rul
 	timer := NewTimer(ctx, "IndexedState.FindCachedRules")
 	defer timer.Stop()
 
-	rules, err := s.doFindRules(ctx, event)
+	// Keep the read lock while consulting and filling the cache:
+	// a writer invalidates the cache under the write lock, so a
+	// parsed rule can't outlive the body it was parsed from.
+	s.slock(ctx, true)
+	defer s.sunlock(ctx, true)
+
+	rules, err := s.findRules(ctx, event)
 	if err != nil {
 		return nil, err
 	}
+
+	s.cacheMutex.Lock()
+	defer s.cacheMutex.Unlock()
 
 	acc := make(map[string]*Rule)
 	for id, r := range rules {
